@@ -81,24 +81,25 @@ def run_list(world, case, conf, off):
 def run_exec(world, case, conf, name, trace):
     args = [os.path.join(world.impl, 'robsd-exec'), '-m', case['mode'], '-C', conf] + (['-x'] if trace else []) + [name]
     try:
-        r = subprocess.run(args, stdin=subprocess.DEVNULL, stdout=subprocess.PIPE, stderr=subprocess.PIPE, timeout=20, env=cc.impl_env(world, case), cwd=world.dir)
+        r = subprocess.run(args, stdin=subprocess.DEVNULL, stdout=subprocess.PIPE, stderr=subprocess.PIPE, timeout=6, env=cc.impl_env(world, case), cwd=world.dir)
         return (r.returncode, r.stdout, r.stderr)
     except subprocess.TimeoutExpired:
         return (-999, b'', b'timeout')
 
 
-def classify_list(rc, out, err):
+def classify_list(rc, out, err, accepted=True):
     if rc == 0:
         return 'ok ' + hexs(out)
-    if b'offset' in err and b'too large' in err and re.search(rb'offset \d+ too large\n$', err) and b'robsd-step: offset' in err:
-        # strtonum's "too large" (beyond INT_MAX) and the range check read the same; tell them apart by the number
-        m = re.search(rb'offset (\d+) too large', err)
-        return 'invalid' if int(m.group(1)) > 2147483647 else 'toolarge'
-    if re.search(rb'robsd-step: offset .* (too small|invalid)\n', err):
-        return 'invalid'
-    if b'invalid substitution' in err and not re.search(rb'robsd-step: [^\n]*\.conf:', err):
+    m = re.fullmatch(rb'robsd-step: offset (\S*) (too small|too large|invalid)\n', err)
+    if m and not (m.group(2) == b'too large' and m.group(1).isdigit() and int(m.group(1)) <= 2147483647):
+        return 'invalid'          # refused by strtonum(optarg, 1, INT_MAX) before the configuration is read
+    if not accepted:
+        return 'rejected'
+    if m:
+        return 'toolarge'
+    if b'invalid substitution' in err:
         return 'stepsfail'
-    return 'rejected'
+    return 'other:' + hexs(err[:80])
 
 
 def make_stubs(world):
@@ -111,6 +112,8 @@ def per_case(world, case, offsets_all):
     conf = cc.write_case_files(world, case)
     full = run_list(world, case, conf, None)
     obs = {'conf': conf, 'lists': [(None, full)], 'execs': []}
+    # is the configuration itself accepted?  (a path-less "invalid substitution" can come from either stage)
+    obs['accepted'] = cc.run_config(world, dict(case, vars=[]), conf, b'')[0] == 0
     lines = parse_listing(full[1]) if full[0] == 0 else None
     obs['lines'] = lines
     n = len(lines) if lines else 3
@@ -134,7 +137,7 @@ def per_case(world, case, offsets_all):
 
 def expected_exec(world, case, argv):
     try:
-        r = subprocess.run(argv, stdin=subprocess.DEVNULL, stdout=subprocess.PIPE, stderr=subprocess.PIPE, timeout=20, env=cc.impl_env(world, case), cwd=world.dir)
+        r = subprocess.run(argv, stdin=subprocess.DEVNULL, stdout=subprocess.PIPE, stderr=subprocess.PIPE, timeout=6, env=cc.impl_env(world, case), cwd=world.dir)
         return (r.returncode if r.returncode >= 0 else 128 - r.returncode, r.stdout)
     except (FileNotFoundError, PermissionError, NotADirectoryError, OSError):
         return (1, b'')
@@ -158,6 +161,14 @@ def evaluate(ctx, cases, res, world=None, offsets_all=False):
         for name, tr, _ in ob['execs']:
             questions.append((ci, ['resolve', cases[ci]['mode'], text, '1' if tr else '0', hexs(name)]))
     answers, _ = cc.driver_rounds(world, drv, questions, cases, lambda pre, env: ' '.join(pre + env))
+    # run every resolved argv directly, in parallel
+    jobs = []
+    for (ci, q), a in zip(questions, answers):
+        if q[0] == 'resolve' and a.startswith('cmd ') and a.split()[1] != '0':
+            jobs.append((ci, a))
+    with ThreadPoolExecutor(16) as ex:
+        exp = dict(zip([(ci, a) for ci, a in jobs],
+                       ex.map(lambda j: expected_exec(world, cases[j[0]], [common.unhex(x) for x in j[1].split()[2:]]), jobs)))
     qi = 0
     specq, specmeta = [], []
     for ci, ob in enumerate(allobs):
@@ -171,7 +182,7 @@ def evaluate(ctx, cases, res, world=None, offsets_all=False):
         def dis(kind, model, impl, extra=None):
             res.disagreements.append({'case': case, 'what': kind, 'model': model[:300], 'impl': impl[:300], 'extra': extra})
         for off, (rc, out, err) in ob['lists']:
-            impl_s = classify_list(rc, out, err)
+            impl_s = classify_list(rc, out, err, ob['accepted'])
             res.traces_validated += 1
             if answers[qi] != impl_s:
                 dis('listing offset %r' % off, answers[qi], impl_s, err[-200:].decode('latin1'))
@@ -202,7 +213,7 @@ def evaluate(ctx, cases, res, world=None, offsets_all=False):
                 if rc == 0:
                     dis('exec %r' % name, 'empty command', 'rc=0')
                 continue
-            erc, eout = expected_exec(world, case, argv)
+            erc, eout = exp[(ci, answers[qi - 1])]
             if (erc, eout) != (rc, out) and not (erc != 0 and rc != 0 and eout == out):
                 dis('exec %r trace=%s' % (name, tr), 'rc=%d out=%r argv=%r' % (erc, eout[:80], argv), 'rc=%d out=%r' % (rc, out[:80]), err[-200:].decode('latin1'))
         # oracle on the implementation's listings
